@@ -157,7 +157,7 @@ func TestOrderedWriterDeleteEventuallyRetries(t *testing.T) {
 	f := &flakyStore{gateStore: *newGateStore(), failDeletes: 2}
 	f.data["ns/s1"] = "v1"
 	w := NewOrderedWriter(f)
-	if err := w.DeleteEventually(context.Background(), "ns", "s1", func(err error) { t.Errorf("gave up: %v", err) }); err == nil {
+	if err := w.DeleteEventually(context.Background(), "ns", "s1", func(err error) { t.Errorf("reported as stuck after two failures: %v", err) }); err == nil {
 		t.Fatal("first attempt was expected to fail")
 	}
 	deadline := time.Now().Add(3 * time.Second)
@@ -169,5 +169,28 @@ func TestOrderedWriterDeleteEventuallyRetries(t *testing.T) {
 			t.Fatal("key still present: the failed delete was not retried")
 		}
 		time.Sleep(5 * time.Millisecond)
+	}
+}
+
+func TestOrderedWriterDeleteEventuallyNeverGivesUp(t *testing.T) {
+	f := &flakyStore{gateStore: *newGateStore(), failDeletes: deleteRetryReportEvery + 2}
+	f.data["ns/s1"] = "v1"
+	w := NewOrderedWriter(f)
+	reported := make(chan error, 4)
+	if err := w.DeleteEventually(context.Background(), "ns", "s1", func(err error) { reported <- err }); err == nil {
+		t.Fatal("first attempt was expected to fail")
+	}
+	deadline := time.Now().Add(15 * time.Second)
+	for {
+		if _, ok := f.get("ns/s1"); !ok {
+			break
+		}
+		if time.Now().After(deadline) {
+			t.Fatal("key still present: the delete was given up")
+		}
+		time.Sleep(10 * time.Millisecond)
+	}
+	if len(reported) == 0 {
+		t.Fatal("a store that kept failing was never reported")
 	}
 }
